@@ -315,7 +315,17 @@ pub fn arg_for(p: &Pat, ctr: &mut i64, style: usize) -> T {
 /// the `-if` kinds put the observer in both arms of a conditional inside the function (every `if` re-creates the
 /// function's environment); they are generated for parameter shapes with an (@ name pattern) capture, whose
 /// whole sub-value - including members beyond the sub-pattern - is observable
-pub const PARAM_KINDS: [&str; 8] = ["main", "defun-rest", "inline-rest", "lambda", "defun-positional", "inline-positional", "defun-rest-if", "inline-rest-if"];
+pub const PARAM_KINDS: [&str; 9] = ["main", "defun-rest", "inline-rest", "lambda", "defun-positional", "inline-positional", "defun-rest-if", "inline-rest-if", "main-if"];
+
+/// a () leaf that is not the terminator of the top-level list (an ignored argument position)
+fn pat_has_interior_nil(p: &Pat, top_spine: bool) -> bool {
+    match p {
+        Pat::Nil => !top_spine,
+        Pat::Name(_) => false,
+        Pat::At(_, s) => pat_has_interior_nil(s, false),
+        Pat::Cons(a, b) => pat_has_interior_nil(a, false) || pat_has_interior_nil(b, top_spine),
+    }
+}
 
 fn pat_has_at(p: &Pat) -> bool {
     match p {
@@ -384,8 +394,15 @@ pub fn params_case(p: &Pat, kind: &str, sigil: Option<&'static str>) -> Option<C
             helpers: vec![Helper::Fun { name: "F".to_string(), inline: kind == "inline-rest", params: p.clone(), body: obs }],
             body: E::Call("F".to_string(), vec![], Some(Box::new(E::v("ARGS")))),
         },
+        "main-if" => {
+            if !(pat_has_at(p) || pat_has_interior_nil(p, true)) || names.is_empty() {
+                return None;
+            }
+            let cond = E::prim("l", vec![E::Var(names[names.len() - 1].clone())]);
+            Prog { sigil, params: p.clone(), helpers: vec![], body: E::If(Box::new(cond), Box::new(observer(201, &names)), Box::new(observer(202, &names))) }
+        }
         "defun-rest-if" | "inline-rest-if" => {
-            if !pat_has_at(p) || names.is_empty() {
+            if !(pat_has_at(p) || pat_has_interior_nil(p, true)) || names.is_empty() {
                 return None;
             }
             let cond = E::prim("l", vec![E::Var(names[names.len() - 1].clone())]);
@@ -532,8 +549,10 @@ pub fn lookalike_payloads(thorough: bool) -> Vec<T> {
         T::list(&[i(6), i(2)]),
         T::list(&[i(100)]),
         T::list(&[i(5), T::list(&[i(6), i(100)])]),
+        T::list(&[i(1)]),
+        T::list(&[i(2)]),
     ];
-    let rows: Vec<T> = if thorough { rows_all } else { rows_all.into_iter().take(7).collect() };
+    let rows: Vec<T> = if thorough { rows_all } else { rows_all.iter().take(7).cloned().chain(std::iter::once(T::list(&[i(1)]))).collect() };
     let mut out = vec![];
     for r in &rows {
         out.push(r.clone());
@@ -566,6 +585,11 @@ pub fn lookalike_cases(sigil: Option<&'static str>, thorough: bool, positions: &
             c.tags[0] = format!("data/{}", pos);
             out.push(c);
         }
+        // the quoted constant as the WHOLE body of the main program / of a function
+        let params = Pat::list(vec![Pat::n("A"), Pat::n("B")]);
+        let args = vec![T::list(&[T::int(300), T::int(7)])];
+        out.push(Case { prog: Prog { sigil, params: params.clone(), helpers: vec![], body: E::Quote(d.clone()) }, args: args.clone(), tags: vec!["data/bare-main-body".into(), format!("payload{}", k)] });
+        out.push(Case { prog: Prog { sigil, params: params.clone(), helpers: vec![Helper::Fun { name: "F".into(), inline: false, params: Pat::list(vec![Pat::n("X")]), body: E::Quote(d.clone()) }], body: E::List(vec![E::call("F", vec![E::v("A")]), E::v("B")]) }, args, tags: vec!["data/bare-function-body".into(), format!("payload{}", k)] });
     }
     out
 }
@@ -823,6 +847,140 @@ pub fn many_helpers_cases(sigil: Option<&'static str>, max_n: usize) -> Vec<Case
             };
             let body = E::Let(LetKind::Let, binds, Box::new(use_it));
             out.push(Case { prog: Prog { sigil, params: params.clone(), helpers, body }, args: args.clone(), tags: vec![format!("lambda-captures/{}", k), format!("via-helper:{}", via_helper)] });
+        }
+    }
+    out
+}
+
+// ---------------------------------------------------------------------------
+// CONSTS: compile-time constants (defconst) that depend on each other directly, or only through a
+// function / inline / macro that names another constant; every order of the definitions in the source.
+
+pub fn const_graph_cases(sigil: Option<&'static str>, max_consts: usize) -> Vec<Case> {
+    fn perms(n: usize) -> Vec<Vec<usize>> {
+        if n == 0 {
+            return vec![vec![]];
+        }
+        let mut out = vec![];
+        for p in perms(n - 1) {
+            for pos in 0..=p.len() {
+                let mut q = p.clone();
+                q.insert(pos, n - 1);
+                out.push(q);
+            }
+        }
+        out
+    }
+    let mut out = vec![];
+    let params = Pat::list(vec![Pat::n("A"), Pat::n("B")]);
+    let args = vec![T::list(&[T::int(5), T::int(7)]), T::list(&[T::int(-2), T::list(&[T::int(1)])])];
+    for via in ["direct", "defun", "inline", "macro"] {
+        for n in 2..=max_consts {
+            // K0 = 1000; K(i+1) depends on K(i) through `via`
+            let mut hs: Vec<Helper> = vec![Helper::Const { name: "K0".into(), body: E::int(1000) }];
+            for i in 1..n {
+                let prev = format!("K{}", i - 1);
+                let body = match via {
+                    "direct" => E::prim("+", vec![E::Var(prev.clone()), E::int(i as i64)]),
+                    "macro" => E::MacroCall(format!("VIA{}", i), vec![E::int(i as i64)]),
+                    _ => E::call(&format!("VIA{}", i), vec![E::int(i as i64)]),
+                };
+                hs.push(Helper::Const { name: format!("K{}", i), body });
+                match via {
+                    "defun" | "inline" => hs.push(Helper::Fun { name: format!("VIA{}", i), inline: via == "inline", params: Pat::list(vec![Pat::n("X")]), body: E::prim("+", vec![E::v("X"), E::Var(prev)]) }),
+                    "macro" => hs.push(Helper::Macro { name: format!("VIA{}", i), params: vec!["X".into()], template: E::prim("+", vec![E::v("X"), E::Var(prev)]) }),
+                    _ => {}
+                }
+            }
+            let body = E::List((0..n).map(|i| E::Var(format!("K{}", i))).chain(std::iter::once(E::v("A"))).collect());
+            let orders = if hs.len() <= 4 { perms(hs.len()) } else { vec![(0..hs.len()).collect(), (0..hs.len()).rev().collect()] };
+            for (oi, o) in orders.iter().enumerate() {
+                let helpers: Vec<Helper> = o.iter().map(|i| hs[*i].clone()).collect();
+                out.push(Case { prog: Prog { sigil, params: params.clone(), helpers, body: body.clone() }, args: args.clone(), tags: vec![format!("consts/{}", via), format!("n{}-order{}", n, oi)] });
+            }
+        }
+    }
+    out
+}
+
+// ---------------------------------------------------------------------------
+// CSE: repeated subexpressions (some of which can raise) in conditional trees and under binders that are
+// not at the root of a body - the shapes common-subexpression elimination and lifting passes look for.
+
+pub fn cse_cases(sigil: Option<&'static str>, thorough: bool) -> Vec<Case> {
+    let mut out = vec![];
+    let params = Pat::list(vec![Pat::n("A"), Pat::n("B")]);
+    // B is nil (G raises), a pair, or a longer list; A selects branches
+    let args = vec![
+        T::list(&[T::nil(), T::nil()]),
+        T::list(&[T::int(1), T::nil()]),
+        T::list(&[T::nil(), T::list(&[T::int(3), T::int(4)])]),
+        T::list(&[T::int(1), T::list(&[T::int(3), T::int(4)])]),
+    ];
+    // G raises when B is an atom; it is large enough to be worth sharing
+    let g = || E::prim("*", vec![E::prim("f", vec![E::v("B")]), E::prim("+", vec![E::prim("f", vec![E::v("B")]), E::int(2)])]);
+    // (1) conditional trees of depth <= 2 (thorough 3) over conditions A, B with leaves G / 0
+    fn trees(depth: usize, g: &dyn Fn() -> E) -> Vec<E> {
+        let mut v = vec![g(), E::int(0)];
+        if depth > 0 {
+            let sub = trees(depth - 1, g);
+            for c in ["A", "B"] {
+                for t in &sub {
+                    for f in &sub {
+                        v.push(E::If(Box::new(E::v(c)), Box::new(t.clone()), Box::new(f.clone())));
+                    }
+                }
+            }
+        }
+        v
+    }
+    for (k, t) in trees(2, &g).into_iter().enumerate() {
+        if k < 2 {
+            continue;
+        }
+        for in_fun in [false, true] {
+            if in_fun && !thorough && k % 4 != 0 {
+                continue;
+            }
+            let (helpers, body) = if in_fun { (vec![Helper::Fun { name: "F".into(), inline: false, params: params.clone(), body: t.clone() }], E::call("F", vec![E::v("A"), E::v("B")])) } else { (vec![], t.clone()) };
+            out.push(Case { prog: Prog { sigil, params: params.clone(), helpers, body }, args: args.clone(), tags: vec![format!("cse/if-tree/{}", if in_fun { "defun" } else { "main" }), format!("tree{}", k)] });
+        }
+    }
+    // (2) a binder with two bindings sharing a subexpression, placed in a context that is not the body root
+    let shared: Vec<(&str, Box<dyn Fn(E) -> E>)> = vec![
+        ("plus", Box::new(|v: E| E::prim("+", vec![v, E::int(1)]))),
+        ("sha", Box::new(|v: E| E::prim("sha256", vec![v, E::int(2)]))),
+        ("cons", Box::new(|v: E| E::prim("c", vec![v.clone(), v]))),
+    ];
+    let e0s: Vec<(&str, E)> = vec![("first-of-B", E::prim("f", vec![E::v("B")])), ("B", E::v("B"))];
+    for (sn, sf) in &shared {
+        for (en, e0) in &e0s {
+            for binder in ["assign", "assign-inline", "assign-lambda", "let*", "nested-let"] {
+                for ctx in ["root", "under-c", "in-if-arm", "twice-in-list", "in-defun-under-c"] {
+                    let v = || E::v("V");
+                    let inner_body = E::List(vec![v(), E::v("W"), E::v("U")]);
+                    let bound = match binder {
+                        "assign" | "assign-inline" | "assign-lambda" => {
+                            let k = match binder {
+                                "assign" => AssignKind::Plain,
+                                "assign-inline" => AssignKind::Inline,
+                                _ => AssignKind::Lambda,
+                            };
+                            E::Assign(k, vec![(Pat::n("V"), e0.clone()), (Pat::n("W"), sf(v())), (Pat::n("U"), sf(v()))], Box::new(inner_body))
+                        }
+                        "let*" => E::Let(LetKind::LetStar, vec![("V".into(), e0.clone()), ("W".into(), sf(v())), ("U".into(), sf(v()))], Box::new(inner_body)),
+                        _ => E::Let(LetKind::Let, vec![("V".into(), e0.clone())], Box::new(E::Let(LetKind::Let, vec![("W".into(), sf(v())), ("U".into(), sf(v()))], Box::new(inner_body)))),
+                    };
+                    let (helpers, body) = match ctx {
+                        "root" => (vec![], bound),
+                        "under-c" => (vec![], E::prim("c", vec![E::int(1), bound])),
+                        "in-if-arm" => (vec![], E::If(Box::new(E::v("A")), Box::new(bound), Box::new(E::int(0)))),
+                        "twice-in-list" => (vec![], E::List(vec![bound.clone(), bound])),
+                        _ => (vec![Helper::Fun { name: "F".into(), inline: false, params: params.clone(), body: E::prim("c", vec![E::int(1), bound]) }], E::call("F", vec![E::v("A"), E::v("B")])),
+                    };
+                    out.push(Case { prog: Prog { sigil, params: params.clone(), helpers, body }, args: args.clone(), tags: vec![format!("cse/shared-in-binder/{}", ctx), format!("{}-{}-{}", binder, sn, en)] });
+                }
+            }
         }
     }
     out
